@@ -98,13 +98,13 @@ def measure(c, stats):
         stats.bump("with_icache")
 
 
-def run_mode(c, mode, hazard, limit=4000, nocache=False):
+def run_mode(c, mode, hazard, limit=4000, nocache=False, noicache=False):
     """Run the case's program on a fresh real simulation in the given mode until done / fault / limit.
     Returns dict(final snapshot fields, retire order, fault, cycles)."""
     im = implmod.Impl()
     hdr = [l for l in c.lines if l.split()[0] in ("sim.prog", "sim.reg", "sim.poke")]
     new = next(l for l in c.lines if l.startswith("sim.new")).split()
-    im.run(f"sim.new {mode} {1 if hazard else 0} {'-' if nocache else new[3]} {'-' if nocache else new[4]}")
+    im.run(f"sim.new {mode} {1 if hazard else 0} {'-' if nocache else new[3]} {'-' if nocache or noicache else new[4]}")
     for l in hdr:
         im.run(l)
     sim = im.sim
